@@ -16,7 +16,7 @@ RNAMES = {v: k for k, v in NAMES.items()}
 NOPATH = [0]
 UNKNOWN = [9, 9, 9]
 ERRNO = {"ENOENT": errno.ENOENT, "ENOTDIR": errno.ENOTDIR, "EACCES": errno.EACCES}
-NOFAULT = {"op": "none", "p": NOPATH, "err": "none"}
+NOFAULT = {"op": "none", "p": NOPATH, "err": "none", "n": 0}
 
 
 def pstr(p):
@@ -178,7 +178,7 @@ class VFS:
         self.n += 1
         self.calls += 1
         if self.n == self.fault_at:
-            self.hit = {"op": op, "p": ppath(path), "err": self.fault_err}
+            self.hit = {"op": op, "p": ppath(path), "err": self.fault_err, "n": self.n}
             # OSError(EACCES, ...) is a PermissionError, OSError(ENOENT, ...) a FileNotFoundError, ...
             raise OSError(ERRNO[self.fault_err], "injected " + self.fault_err, path)
 
@@ -261,6 +261,18 @@ def drive_direct(mods, rec, steps):
         if exc:
             break
     return trace, ncalls
+
+
+def steps_of_trace(trace):
+    """(rec, steps) that reproduce a recorded direct trace: the trees and the call index / errno of each fault."""
+    rec = trace[0]["rec"]
+    steps = []
+    for ln in trace:
+        if ln["e"] in ("start", "poll"):
+            tree = {tuple(p): (i, k, m, z) for p, i, k, m, z in ln["tree"]}
+            f = ln["fault"]
+            steps.append((tree, f.get("n", 0), f["err"] if f.get("n", 0) else None))
+    return rec, steps
 
 
 def take_snapshot(ds, rec, tree, fat, err):
